@@ -140,6 +140,9 @@ func (ctx *Context) IsCalculateExists() bool {
 
 func (ctx *Context) RunAfterParsed() error {
 	ctx.IsComputedLoaded = false
+	// 计算过程属于产生它的那一次执行: 同一份解析结果再次执行时，不能继续返回上一次的过程文本
+	ctx.detailCache = ""
+	ctx.DetailSpans = nil
 	// 以下为eval
 	ctx.evaluate()
 	if ctx.Error != nil {
